@@ -27,12 +27,17 @@ type copyCase struct {
 	Kind   vmodel.StructKind
 	Fields []vmodel.Field
 	Combos []int // per field: bit0 = set in to, bit1 = set in from
+	Shapes []string // per field, optional: the value shape on both sides (default: the first shape of the type)
 }
 
 func (cc copyCase) String() string {
 	var parts []string
 	for i, f := range cc.Fields {
-		parts = append(parts, fmt.Sprintf("%s:%s", f.Term, []string{"neither", "to-only", "from-only", "both", "both-same-id(to:iri,from:object)", "both-same-id(to:object,from:iri)"}[cc.Combos[i]]))
+		part := fmt.Sprintf("%s:%s", f.Term, []string{"neither", "to-only", "from-only", "both", "both-same-id(to:iri,from:object)", "both-same-id(to:object,from:iri)"}[cc.Combos[i]])
+		if cc.Shapes != nil && cc.Shapes[i] != "" {
+			part += "=" + cc.Shapes[i]
+		}
+		parts = append(parts, part)
 	}
 	return cc.Kind.Name + " " + strings.Join(parts, " ")
 }
@@ -99,7 +104,11 @@ func runCopy(c *Ctx, cc copyCase, idx int) {
 				continue
 			}
 			if cc.Combos[i]&bit != 0 {
-				g.SetShape(v.Field(f.Index), f.Type, firstShape(f.Type))
+				shape := firstShape(f.Type)
+				if cc.Shapes != nil && cc.Shapes[i] != "" {
+					shape = cc.Shapes[i]
+				}
+				g.SetShape(v.Field(f.Index), f.Type, shape)
 			}
 		}
 		return p
@@ -353,26 +362,53 @@ func init() {
 			}
 		}
 	}
+	type shapedCase struct {
+		k     vmodel.StructKind
+		f     vmodel.Field
+		combo int
+		shape string
+	}
+	var shaped []shapedCase
+	for _, kn := range copyKinds {
+		k := vmodel.Kinds[vmodel.KindIndex(kn)]
+		for _, f := range copyFields(k) {
+			for _, sh := range vmodel.FieldShapes(f.Type, true) {
+				if strings.HasSuffix(sh, "-empty") {
+					continue // set-but-empty says nothing: the single-property layer has the unset combinations
+				}
+				shaped = append(shaped, shapedCase{k, f, 2, sh}, shapedCase{k, f, 3, sh})
+			}
+		}
+	}
 	refs := refusals()
 	aliases := aliasCases()
 	Register(&Prop{
 		ID: "C18",
 		Rule: "model: per merged property to' = from if set in from else to; id/type from from; every property of to' is what to had or what from has; nothing set in to and unset in from is lost; from unchanged (deep comparison incl. spare capacity of its lists). " +
-			"Exhaustive: Object, Actor and the four collection kinds x every property x the four (set in to?, set in from?) combinations, plus - for item and list properties - the same id on both sides presented as an IRI on one and as an embedded object on the other; every property pair x 3 combination patterns; 3 000 id pairs from the C14 grid (non-equivalent ids by the reference normaliser must be refused, equivalent ones accepted); the refusal matrix (untyped nil, typed nil of each struct on either side, non-equivalent ids, differing types, unsupported types) demanding an error and an untouched to; random subsets of properties on both sides (the 2^n space, sampled); distinct = the case; non-trivial = at least one property set on either side",
+			"Exhaustive: Object, Actor and the four collection kinds x every property x the four (set in to?, set in from?) combinations, plus - for item and list properties - the same id on both sides presented as an IRI on one and as an embedded object on the other; every property x every admissible value shape of its type (from only, both sides); every property pair x 3 combination patterns; 3 000 id pairs from the C14 grid (non-equivalent ids by the reference normaliser must be refused, equivalent ones accepted); the refusal matrix (untyped nil, typed nil of each struct on either side, non-equivalent ids, differing types, unsupported types) demanding an error and an untouched to; random subsets of properties on both sides (the 2^n space, sampled); distinct = the case; non-trivial = at least one property set on either side",
 		Layers: func(tier string) []Layer {
 			return []Layer{
 				{Name: "single-property", N: len(singles), Exhaustive: true, Run: func(c *Ctx, idx int) {
 					s := singles[idx]
-					cc := copyCase{s.k, []vmodel.Field{s.f}, []int{s.combo}}
+					cc := copyCase{Kind: s.k, Fields: []vmodel.Field{s.f}, Combos: []int{s.combo}}
 					c.Distinct(cc.String(), s.combo != 0)
 					if idx%250 == 0 {
 						c.Sample(map[string]any{"case": cc.String()})
 					}
 					runCopy(c, cc, idx)
 				}},
+				{Name: "every-shape", N: len(shaped), Exhaustive: true, Run: func(c *Ctx, idx int) {
+					// every admissible value shape of every property (lists of one, nine and thirty-three members, language lists
+					// with repeated and untagged entries, zoned and sub-second instants, ...), set in from only and on both sides
+					s := shaped[idx]
+					cc := copyCase{s.k, []vmodel.Field{s.f}, []int{s.combo}, []string{s.shape}}
+					c.Distinct(cc.String(), true)
+					c.Count("shaped-copies", 1)
+					runCopy(c, cc, idx)
+				}},
 				{Name: "property-pairs", N: len(pairs), Exhaustive: true, Run: func(c *Ctx, idx int) {
 					p := pairs[idx]
-					cc := copyCase{p.k, []vmodel.Field{p.f1, p.f2}, []int{p.c1, p.c2}}
+					cc := copyCase{Kind: p.k, Fields: []vmodel.Field{p.f1, p.f2}, Combos: []int{p.c1, p.c2}}
 					c.Distinct(cc.String(), true)
 					runCopy(c, cc, idx)
 				}},
